@@ -25,6 +25,7 @@ import (
 
 	"golang.org/x/sync/errgroup"
 
+	"github.com/panjf2000/gnet/v2/internal/vhook"
 	errorx "github.com/panjf2000/gnet/v2/pkg/errors"
 	"github.com/panjf2000/gnet/v2/pkg/logging"
 	"github.com/panjf2000/gnet/v2/pkg/netpoll"
@@ -198,8 +199,10 @@ func (eng *engine) start(ctx context.Context, numEventLoop int) error {
 func (eng *engine) stop(ctx context.Context, s Engine) {
 	// Wait on a signal for shutdown
 	<-ctx.Done()
+	vhook.Ev("eng.stop", eng, 1, 0)
 
 	eng.eventHandler.OnShutdown(s)
+	vhook.Ev("eng.stop", eng, 2, 0)
 
 	// Notify all event-loops to exit.
 	eng.eventLoops.iterate(func(i int, el *eventloop) bool {
@@ -207,6 +210,7 @@ func (eng *engine) stop(ctx context.Context, s Engine) {
 		if err != nil {
 			eng.opts.Logger.Errorf("failed to enqueue shutdown signal of high-priority for event-loop(%d): %v", i, err)
 		}
+		vhook.Gate("eng.triggered", eng, i)
 		return true
 	})
 	if eng.ingress != nil {
@@ -216,15 +220,19 @@ func (eng *engine) stop(ctx context.Context, s Engine) {
 		}
 	}
 
+	vhook.Ev("eng.stop", eng, 3, 0)
 	if err := eng.concurrency.Wait(); err != nil {
 		eng.opts.Logger.Errorf("engine shutdown error: %v", err)
 	}
+	vhook.Ev("eng.stop", eng, 4, 0)
 
 	// Close all listeners and pollers of event-loops.
 	eng.closeEventLoops()
+	vhook.Ev("eng.stop", eng, 5, 0)
 
 	// Put the engine into the shutdown state.
 	eng.inShutdown.Store(true)
+	vhook.Ev("eng.stop", eng, 6, 0)
 }
 
 func run(eventHandler EventHandler, listeners []*listener, options *Options, addrs []string) error {
